@@ -221,7 +221,15 @@ func (encryptor *HashQuery) OnBind(ctx context.Context, statement sqlparser.Stat
 	}
 
 	bindData := mysql.ParseSearchQueryPlaceholdersSettings(statement, encryptor.schemaStore)
-	if len(bindData) > len(indexes) {
+	// bindData describes the placeholders of consistently tokenized columns (the tokenizer's) as well:
+	// only the ones hashed here have to be among the indexes found above
+	own := 0
+	for _, setting := range bindData {
+		if setting.IsSearchable() {
+			own++
+		}
+	}
+	if own > len(indexes) {
 		return values, false, nil
 	}
 
